@@ -259,7 +259,10 @@ pub fn run(ctx: &Ctx) -> Report {
     run_part(ctx, &mut rep, &core_part(ctx.tier));
     run_part(ctx, &mut rep, &feed_part(ctx.tier));
     run_part(ctx, &mut rep, &super::sweep::sweep_part("scroll-large-screen-parameter-sweep", &SYS_SWEEP, &alpha_sweep, ctx.tier));
-    run_part(ctx, &mut rep, &super::sweep::wide_part("scroll-realistic-screen-parameter-sweep", &SYS_SWEEP, &alpha_wide, ctx.tier));
+    // (a tall narrow screen as well: regions of more than 24 rows with rows above and below)
+    let mut wcfgs = super::sweep::wide_cfgs(ctx.tier);
+    wcfgs.push(Cfg::new(20, 40, None));
+    run_part(ctx, &mut rep, &super::sweep::wide_part_on("scroll-realistic-screen-parameter-sweep", &SYS_SWEEP, &alpha_wide, wcfgs, ctx.tier));
     rep.rule = "lock-step BFS of (real Vt, reference terminal) from a screen whose rows carry distinct content: LF/IND/NEL/RI, SU/SD/IL/DL x counts {default,1,2,h-1,h,h+1,65535}, valid and invalid DECSTBM pairs, wrap-causing text, with cursor placement on every row, coloured pen, alternate screen, resizes; after every transition all rows of lines() (screen and scrollback, cells) and the margins are compared".into();
     rep.assumptions = vec!["scrollback compared with unlimited scrollback (and limit 0 for the alternate-screen clause); wrap marks after scrolls are adopted (not specified)".into()];
     rep
@@ -277,7 +280,9 @@ pub fn replay(ctx: &Ctx, v: &Value) -> bool {
         return replay_part(ctx, &medium_part(tier), v);
     }
     if v["part"] == "scroll-realistic-screen-parameter-sweep" {
-        return replay_part(ctx, &super::sweep::wide_part("scroll-realistic-screen-parameter-sweep", &SYS_SWEEP, &alpha_wide, tier), v);
+        let mut wcfgs = super::sweep::wide_cfgs(tier);
+        wcfgs.push(Cfg::new(20, 40, None));
+        return replay_part(ctx, &super::sweep::wide_part_on("scroll-realistic-screen-parameter-sweep", &SYS_SWEEP, &alpha_wide, wcfgs, tier), v);
     }
     if v["part"] == "scroll-large-screen-parameter-sweep" {
         return replay_part(ctx, &super::sweep::sweep_part("scroll-large-screen-parameter-sweep", &SYS_SWEEP, &alpha_sweep, tier), v);
